@@ -1,5 +1,6 @@
+\* regression documentation of FIXED finding F1, body A: must still fail
 CONSTANTS BODY = "A"  TNEG = 0  TMAX = 31  CNEG = 0  CMAX = 31  BNEG = 0  BHI = 31
-          MAXELEMS = 8  MAXPEERS = 6  REVERSED = TRUE  NEARMAX = TRUE  WRAPPED = TRUE
+          MAXELEMS = 8  MAXPEERS = 6  FIX_REVERSED = FALSE  FIX_CLAMP_START = TRUE  WRAPPED = TRUE
 SPECIFICATION Spec
 INVARIANTS C15_Range
 CHECK_DEADLOCK FALSE
